@@ -225,8 +225,10 @@ where
             return Ok(vec![]);
         }
 
-        let reader = self.create_reader();
+        // Lock order: pages before the reader's mmap guard (the writer holds pages
+        // while it stores into the mapping).
         let pages = self.pages.read();
+        let reader = self.create_reader();
         let real_len = pages.stored_len(Self::PER_PAGE);
         let to = to.min(real_len);
         if from >= to {
